@@ -25,7 +25,7 @@ RULE = ("convexhull_mask: (1) integer-lattice clouds of 3..15 points (collinear 
         "(data and query coordinates of the array form as non-square 2-D arrays, meshgrid arrays, project_grid value arrays) comes in a "
         "randomly chosen memory layout (C, Fortran, transposed view of a transposed copy, strided view), easting and northing independently; "
         "every third lattice cloud has int64/int32 coordinates; the model always sees the logical C-order sequence. "
-        "project_grid: 5x6..8x9 grids with 0..4 NaN holes (incl. corners), names foo/None/custom, projections axis-aligned affine (dyadic "
+        "project_grid: 5x6..8x9 grids with 0..4 scattered NaN holes (incl. corners) and/or NaN holes blanking one or two COMPLETE rows and columns (edge and interior), names foo/None/custom, projections axis-aligned affine (dyadic "
         "coefficients, incl. negative scales and offsets up to 1e6), separable monotone cubic and Mercator-like, non-separable quadratic and "
         "rotation; methods linear/nearest/cubic x antialias on/off x arguments none/shape/spacing/region(+shape|spacing); the projection "
         "callable is wrapped to log its actual inputs and outputs. Non-trivial = at least one decisive query/node; distinct = distinct inputs.")
@@ -359,7 +359,7 @@ def styled_axis(rnd, start, step, n, style):
     return ax[::-1].copy() if style.endswith("descending") else ax
 
 
-def make_grid(rnd, nprng, ny, nx, name, dims, holes, smooth, even=False):
+def make_grid(rnd, nprng, ny, nx, name, dims, holes, smooth, even=False, lines=False):
     import xarray as xr
     e0 = rnd.choice([0.0, -2.5, 1.0, 3.25])
     n0 = rnd.choice([0.0, 1.0, -4.0, 0.5])
@@ -377,12 +377,29 @@ def make_grid(rnd, nprng, ny, nx, name, dims, holes, smooth, even=False):
     for k in range(holes):
         i, j = rnd.choice(corners) if (k == 0 and rnd.random() < 0.4) else rnd.choice(cells)
         v[i, j] = np.nan
+    if lines:
+        # NaN holes covering COMPLETE rows and / or columns (missing scan line, masked meridian, NaN padding strip),
+        # at the edge and in the interior; at least three valid rows and columns remain
+        nr, nc = rnd.choice([(1, 0), (0, 1), (1, 1), (2, 0), (0, 2), (2, 1)])
+        def pick_lines(n, k):
+            k = min(k, n - 3)
+            pool = [0, n - 1] + list(range(1, n - 1))
+            out = []
+            while len(out) < k:
+                c = rnd.choice([0, n - 1]) if rnd.random() < 0.5 else rnd.choice(pool)
+                if c not in out:
+                    out.append(c)
+            return out
+        for i in pick_lines(ny, nr):
+            v[i, :] = np.nan
+        for j in pick_lines(nx, nc):
+            v[:, j] = np.nan
     v = core.relayout(v, rnd)       # memory layout of the value array must not matter
     da = xr.DataArray(v, coords={dims[0]: north, dims[1]: east}, dims=dims, name=name)
     return da, east, north, v
 
 
-def pg_cases(vd, rnd, nprng, proj, separable, method, antialias, argkind, kind, shrink_stream=False, fixed=None, plain=False):
+def pg_cases(vd, rnd, nprng, proj, separable, method, antialias, argkind, kind, shrink_stream=False, fixed=None, plain=False, lines=None):
     """run project_grid once; return the list of cases (main, range, inside) built from the observation"""
     if fixed is not None:       # a deterministic grid (large-offset stream): (east, north, values, name, dims)
         import xarray as xr
@@ -395,7 +412,10 @@ def pg_cases(vd, rnd, nprng, proj, separable, method, antialias, argkind, kind, 
         name = rnd.choice(["foo", None, "scalars", "temperature"])
         dims = rnd.choice([("northing", "easting"), ("lat", "lon"), ("y", "x")])
         holes = 0 if plain else rnd.choice([0, 0, 1, 2, 4])
-        da, east, north, v = make_grid(rnd, nprng, ny, nx, name, dims, holes, smooth=rnd.random() < 0.3, even=plain)
+        if lines is None:
+            lines = (not plain) and (not shrink_stream) and rnd.random() < 0.2
+        da, east, north, v = make_grid(rnd, nprng, ny, nx, name, dims, holes, smooth=rnd.random() < 0.3, even=plain, lines=lines)
+        holes = int(np.isnan(v).sum())
     if isinstance(proj, AffineFactory):
         proj = proj.make(east, north)
     # what the projection will produce (to choose sensible region / spacing arguments)
@@ -567,6 +587,17 @@ def generate(tier, seed):
                 proj = Projection(nm, f)
             ak = "none" if (isinstance(proj, AffineFactory) and not aa and rnd.random() < 0.6) else rnd.choice(argkinds)
             cases += pg_cases(vd, rnd, nprng, proj, sep, m, aa, ak, "project_grid")
+    # (5a) complete rows / columns of NaN with default arguments: the output keeps the INPUT's shape (not the number
+    #      of rows / columns that still carry data), for every method and antialias setting
+    for i in range(2 if quick else 12):
+        for (m, aa) in combos:
+            if i % 2:
+                proj, sep = AffineFactory(rnd), True
+            else:
+                nm = rnd.choice(sorted(NONLINEAR))
+                f, sep = NONLINEAR[nm]
+                proj = Projection(nm, f)
+            cases += pg_cases(vd, rnd, nprng, proj, sep, m, aa, "none", "project_grid", lines=True)
     # (5b) antialias with linear / cubic on hole-free, evenly spaced grids, separable projections, default arguments:
     #      here every node strictly inside the hull must be finite
     for i in range(3 if quick else 20):
